@@ -643,7 +643,8 @@ def list_of_map(ip, st, lm):
         raise Unsupported("list(map(...)) with results of kinds %s" % kinds)
     k = kinds.pop()
     res = Sym(("list", k), tm.Fresh("mapped", kind_sort(("list", k))))
-    st.assume(tm.Eq(tm.Len(res.term), n))
+    st.assume(tm.Eq(tm.T("seq.len", (res.term,), INT), n))
+    tm.LEN_ALIAS[res.term] = n          # the new list has, by construction, the length of the mapped one
     if len(normal) == 1:
         s1, r = normal[0]
         extra = [c for c in s1.pc if c not in probe.facts]
@@ -1452,6 +1453,74 @@ def _m_lindex(ip, st, recv, args, kwargs):
         yield st, c.index(x)
     else:
         yield st, Raise(mk_exc(st, "ValueError", "not in list"))
+
+
+@method("pylist", "extend")
+def _m_extend(ip, st, recv, args, kwargs):
+    items = concrete_items(ip, st, args[0])
+    if items is None:
+        raise Unsupported("list.extend(symbolic)")
+    st.cell(recv.oid, write=True).extend(items)
+    yield st, None
+
+
+@method("pylist", "insert")
+def _m_insert(ip, st, recv, args, kwargs):
+    if is_sym(args[0]):
+        raise Unsupported("list.insert at symbolic index")
+    st.cell(recv.oid, write=True).insert(args[0], args[1])
+    yield st, None
+
+
+@method("pylist", "copy")
+def _m_lcopy(ip, st, recv, args, kwargs):
+    yield st, st.new_list(list(st.cell(recv.oid)))
+
+
+@method("pylist", "reverse")
+def _m_lreverse(ip, st, recv, args, kwargs):
+    st.cell(recv.oid, write=True).reverse()
+    yield st, None
+
+
+@method("pydict", "copy")
+def _m_dcopy(ip, st, recv, args, kwargs):
+    yield st, st.new_dict(dict(st.cell(recv.oid)))
+
+
+@method("pydict", "update")
+def _m_dupdate(ip, st, recv, args, kwargs):
+    c = st.cell(recv.oid, write=True)
+    for a in args:
+        if isinstance(a, PyDict):
+            c.update(st.cell(a.oid))
+        else:
+            raise Unsupported("dict.update(%r)" % (a,))
+    c.update(kwargs)
+    yield st, None
+
+
+@method("pydict", "pop")
+def _m_dpop(ip, st, recv, args, kwargs):
+    c = st.cell(recv.oid, write=True)
+    k = args[0]
+    if is_sym(k):
+        raise Unsupported("dict.pop(symbolic)")
+    if k in c:
+        yield st, c.pop(k)
+    elif len(args) > 1:
+        yield st, args[1]
+    else:
+        yield st, Raise(mk_exc(st, "KeyError", k))
+
+
+@method("pydict", "setdefault")
+def _m_dsetdefault(ip, st, recv, args, kwargs):
+    c = st.cell(recv.oid, write=True)
+    k = args[0]
+    if is_sym(k):
+        raise Unsupported("dict.setdefault(symbolic)")
+    yield st, c.setdefault(k, args[1] if len(args) > 1 else None)
 
 
 @method("symlist", "append")
